@@ -28,13 +28,18 @@ META = {
     "technique": "TLA+ reference semantics of a small expression language (values, Eval, purity/key registry); TLC enumerates programs "
                  "(DAGs with shared sub-expressions) x which objects are wrapped in dask.delayed; replay into dask.delayed + TLC "
                  "validation of recorded programs",
-    "level_text": "TLC enumerates every 1-operation program over all leaf sets (prefixes of 1, 2, 0 and a string, each wrapped or plain) "
-                  "and a hash-sampled (seeded, reproducible) part of the 2- and 3-operation programs (thorough: every program of <= 2 operations over <= 2 leaves, sampled 3- and 4-operation programs) from value-directed "
+    "level_text": "TLC enumerates (a) exhaustively the pure-key universe: every unordered pair of pure calls (all positional / keyword "
+                  "shapes over a Delayed and a second leaf: same value under two keyword names, positional vs keyword, swapped keyword "
+                  "values, Delayed-valued keywords, different argument counts, nout, dask_key_name) and every pair of containers wrapped "
+                  "with pure=True, both consumed by one call; (b) every 1-operation program over all leaf sets (prefixes of 1, 2, 0 and a "
+                  "string, each wrapped or plain) and a hash-sampled (seeded, reproducible) part of the 2- and 3-operation programs "
+                  "(thorough: every program of <= 2 operations over <= 2 leaves, sampled 3- and 4-operation programs) from value-directed "
                   "menus: calls with positional/keyword arguments, nout, dask_key_name, containers of 7 kinds holding Delayed objects "
-                  "(wrapped or passed plain), item/attribute access, method calls, operators incl. reflected ones. Design invariants "
-                  "(IdentSound: equal key identity => equal value; BuildFree; NoutLen) are checked on every state. Each program is built "
-                  "with dask.delayed and computed; value of the last node and the key classes of all nodes are compared with the "
-                  "specification. Random programs of 4-9 operations with mixed pure flags are recorded and decided by TLC.",
+                  "(plain, wrapped, wrapped with pure=True), item/attribute access, method calls, operators incl. reflected ones. Design "
+                  "invariants (IdentSound: equal key identity => equal value; BuildFree; NoutLen) are checked on every state. Each program "
+                  "is built with dask.delayed, ALL its Delayed nodes are computed in one dask.compute, and every node's value and the key "
+                  "classes of all nodes are compared with the specification (same term <=> same key; each call returns its own value). "
+                  "Random programs of 4-9 operations with mixed pure flags and near-copies of earlier pure calls are recorded and decided by TLC.",
     "level_note": "Trusted: TLC, the reference semantics (cross-checked against eager Python on every case: a disagreement is a machinery "
                   "error), the value normaliser. Not covered: iterators as arguments, traverse=False, delayed_pure config, Delayed "
                   "callables (Delayed.__call__ on a value), errors other than none (menus are value-directed: programs without Python "
